@@ -534,6 +534,14 @@ class HeapExec(Exec):
         p.trace.append(name)
         yield p, VNONE
 
+    def e_Tuple(self, e, p):
+        # the empty tuple literal is the value of `tuple()` (CPython has one empty tuple); treated exactly alike
+        if not e.elts:
+            call = ast.copy_location(ast.Call(func=ast.Name(id="tuple", ctx=ast.Load()), args=[], keywords=[]), e)
+            yield from self.builtin("tuple", call, p)
+            return
+        yield from super().e_Tuple(e, p)
+
     def builtin(self, name, e, p):
         args = e.args
         if name == "hasattr":
